@@ -317,3 +317,49 @@ pub fn rand_poly(rng: &mut Rng, rows: usize, cols: usize) -> Polytope {
     let f = rand_pred(rng, rows, cols, None);
     Polytope::from_mats(f.mat, f.bias)
 }
+
+/// the same tree as `g`, stored in an arena whose first root was a draft that a second `Tree::add_root` replaced
+/// (documented behaviour: the new node becomes the root, the former root stays in the arena, disconnected): the
+/// root does not live in slot 0 and every index differs from the usual layout.  Cached states are kept.
+pub fn rerooted<const K: usize>(rng: &mut Rng, g: &AffTree<K>) -> AffTree<K> {
+    use affinitree::pwl::node::AffContent;
+    let mut tree: Tree<AffContent, K> = Tree::new();
+    let root_val = g.tree.tree_node(g.tree.get_root_idx()).unwrap().value.clone();
+    let draft_rows = 1 + rng.below(3);
+    tree.add_root(AffContent::new(rand_aff(rng, draft_rows, g.in_dim())));
+    let root = tree.add_root(root_val);
+    let mut stack = vec![(g.tree.get_root_idx(), root)];
+    while let Some((src, dst)) = stack.pop() {
+        let children = g.tree.tree_node(src).unwrap().children;
+        for (label, c) in children.iter().enumerate() {
+            if let Some(c) = c {
+                let v = g.tree.tree_node(*c).unwrap().value.clone();
+                let d = tree.add_child_node(dst, label, v).unwrap();
+                stack.push((*c, d));
+            }
+        }
+    }
+    AffTree::<K>::from_tree(tree, g.in_dim())
+}
+
+/// `t` below a new root: a one-row decision is put on top with `Tree::add_root`, the former root (arena slot 0) is
+/// linked below it at label `l` through the public node accessors, the other slot gets a terminal (or stays empty).
+/// The result is a consistent tree whose root is not slot 0 and whose slot 0 is an inner node.
+pub fn uprooted(rng: &mut Rng, t: &AffTree<2>, out_dim: usize, partial: bool) -> AffTree<2> {
+    use affinitree::pwl::node::AffContent;
+    let n = t.in_dim();
+    let mut tree = t.tree.clone();
+    let old = tree.get_root_idx();
+    let l = rng.below(2);
+    let new_root = tree.add_root(AffContent::new(rand_pred(rng, 1, n, None)));
+    {
+        let r = tree.tree_node_mut(new_root).unwrap();
+        r.children[l] = Some(old);
+        r.isleaf = false;
+    }
+    tree.tree_node_mut(old).unwrap().parent = Some(new_root);
+    if !partial {
+        tree.add_child_node(new_root, 1 - l, AffContent::new(rand_aff(rng, out_dim, n))).unwrap();
+    }
+    AffTree::<2>::from_tree(tree, n)
+}
